@@ -40,13 +40,13 @@ fn cfg_for(rng: &mut Rng, n: usize) -> HistCfg {
 fn follow_up(rng: &mut Rng, n: usize) -> Vec<Op> {
     let u = (n as u32 + 2).max(3);
     let mut ops = vec![Op::Scalars, Op::Insert { id: rng.below(u as u64) as u32, kh: 0, vh: 9 }, Op::Get { id: rng.below(u as u64) as u32, owned: false },
-        Op::Insert { id: rng.below(u as u64) as u32, kh: 2, vh: 0 }, Op::Iterate { kind: IT_ITER, calls: vec![false; 3], forget: false }];
+        Op::Insert { id: rng.below(u as u64) as u32, kh: 2, vh: 0 }, Op::Iterate { kind: IT_ITER, calls: vec![false; 3], forget: false, fin: 0 }];
     for _ in 0..5 {
         let id = rng.below(u as u64) as u32;
         ops.push(match rng.below(9) { 0 => Op::Remove { id, owned: false }, 1 => Op::Mutate { id, owned: false, vh: rng.usize_below(50) }, 2 => Op::Reserve { n: 9 }, 3 => Op::ShrinkFit,
             4 => Op::Retain { reject: vec![id] }, 5 => Op::PeekLru, 6 => Op::RemoveLru, 7 => Op::Insert { id, kh: 0, vh: 3 }, _ => Op::Contains { id, owned: true } });
     }
-    ops.push(if rng.chance(1, 2) { Op::Clear } else { Op::Iterate { kind: IT_DRAIN, calls: vec![true], forget: false } });
+    ops.push(if rng.chance(1, 2) { Op::Clear } else { Op::Iterate { kind: IT_DRAIN, calls: vec![true], forget: false, fin: 0 } });
     ops.push(Op::Insert { id: 0, kh: 0, vh: 0 });
     ops
 }
@@ -73,7 +73,8 @@ pub fn enum_iter(p: &EnumParams, out: &mut RunOut) -> u64 {
                 let mut ops = build_ops(&mut rng, n);
                 let consuming = kind >= IT_INTO_ITER;
                 if consuming { ops.push(Op::CloneCache); } // keeps a sibling alive so that the engine can consume the addressed cache mid-history
-                if consuming { ops.push(Op::Into { kind, calls: calls.clone(), forget: p.forget }); } else { ops.push(Op::Iterate { kind, calls: calls.clone(), forget: p.forget }); }
+                let fin = if p.forget { [0u8, 0, 3, 4, 5][(case % 5) as usize] } else { (case % 12).min(7) as u8 % 8 };
+                if consuming { ops.push(Op::Into { kind, calls: calls.clone(), forget: p.forget, fin }); } else { ops.push(Op::Iterate { kind, calls: calls.clone(), forget: p.forget, fin }); }
                 ops.extend(follow_up(&mut rng, n));
                 if p.markers { println!("CASE iter kind={} n={} calls={} forget={} cfg=[{}]", IT_NAMES[kind as usize], n, calls.iter().map(|b| if *b { 'B' } else { 'F' }).collect::<String>(), p.forget, cfg.to_text()); }
                 run_history(&cfg, Source::Fixed(&ops), out, &opts);
@@ -99,7 +100,8 @@ pub fn random_iter(p: &EnumParams, cases: u64, max_len: usize, out: &mut RunOut)
         let calls: Vec<bool> = (0..len).map(|i| match style { 0 => false, 1 => true, 2 => i % 2 == 0, _ => rng.chance(1, 2) }).collect();
         let cfg = cfg_for(&mut rng, n);
         let mut ops = build_ops(&mut rng, n);
-        if kind >= IT_INTO_ITER { ops.push(Op::CloneCache); ops.push(Op::Into { kind, calls, forget: p.forget }); } else { ops.push(Op::Iterate { kind, calls, forget: p.forget }); }
+        let fin = if p.forget { 0 } else { rng.below(8) as u8 };
+        if kind >= IT_INTO_ITER { ops.push(Op::CloneCache); ops.push(Op::Into { kind, calls, forget: p.forget, fin }); } else { ops.push(Op::Iterate { kind, calls, forget: p.forget, fin }); }
         ops.extend(follow_up(&mut rng, n));
         run_history(&cfg, Source::Fixed(&ops), out, &opts);
     }
